@@ -8,7 +8,7 @@ Open Scope Z_scope.
 Lemma emit_enm st c : enm (emit st c) = enm st. Proof. reflexivity. Qed.
 Lemma write_ref_enm st i : enm (write_ref st i) = enm st. Proof. reflexivity. Qed.
 Lemma check_ref_enm st k a : enm (snd (check_ref st k a)) = enm st.
-Proof. unfold check_ref. destruct (ref_find (erefs st) a 0) as [[i k']|]; [destruct (rkind_eqb k k')|]; reflexivity. Qed.
+Proof. unfold check_ref. destruct (ref_find (erefs st) a k 0) as [i|]; reflexivity. Qed.
 Lemma fold_emit_enm l : forall st, enm (fold_left (fun s f => emit s (encode_string f)) l st) = enm st.
 Proof. induction l as [|x r IH]; intros st; cbn [fold_left]; [reflexivity|]. rewrite IH. reflexivity. Qed.
 Lemma write_cls_def_enm st c fs : enm (write_cls_def st c fs) = enm st.
@@ -81,7 +81,7 @@ Proof.
       destruct (write_entries (e0 :: es0) (map_prefix st1 ty)) as [s| | |] eqn:Ee; try discriminate.
       inversion E; subst. rewrite emit_enm.
       apply (G (e0 :: es0) H Hc _ _ (eq_trans (map_prefix_enm _ _) CE) Ee).
-  - cbn [write_data] in E. destruct (ref_find (erefs st) a 0) as [[i k']|]; [destruct (rkind_eqb k k')|]; inversion E; reflexivity.
+  - cbn [write_data] in E. destruct (ref_find (erefs st) a k 0) as [i|]; inversion E; reflexivity.
 Qed.
 
 (* every step of a history over values for which nm is complete keeps the name map *)
